@@ -163,6 +163,9 @@ func main() {
 	os.Exit(exit)
 }
 
+// properties whose rules rely on write-effect classification at the storage boundary
+var effectProps = map[string]bool{"C02": true, "C04": true, "C06": true, "C07": true, "C09": true, "C11": true, "C14": true, "C15": true, "C17": true}
+
 func runProperty(w *World, id, tier string) (c *Ctx) {
 	pr := registry[id]
 	c = &Ctx{W: w, Prop: id, Tier: tier, Explain: pr.explain, Assume: append([]string{
@@ -174,6 +177,9 @@ func runProperty(w *World, id, tier string) (c *Ctx) {
 		}
 	}()
 	pr.run(c)
+	if effectProps[id] {
+		checkEffectTableComplete(c)
+	}
 	return c
 }
 
